@@ -101,6 +101,26 @@ def streams(ctx):
             mcases.append({"req": vlib.line("fz.match", eco, spec(rng), spec(rng) if rng.chance(1, 2) else rng.choice(["1.2.3", "v1.2.3", "4.18.0"]),
                                             *[spec(rng) if rng.chance(1, 3) else rng.choice(["1.0.0", "v1.0.0", "2.0.0-rc.1"]) for _ in range(rng.below(4))]), "eco": eco, "tag": None})
 
+    # every single-character mutation (replace / insert / delete / truncate, with multi-byte characters) of valid versions and specs
+    VALID = {"go": ["v0.0.0-20210101000000-abcdef123456", "v1.2.3-0.20210101000000-abcdef123456", "v1.2.3+incompatible", "v1.2.3-beta.1"],
+             "gha": ["v4", "v4.1", "v4.1.2", "v4.1.2-beta", "8e5b9c1f2a3d4e5f6a7b8c9d0e1f2a3b4c5d6e7f"],
+             "npm": [">=1.0.0 <2.0.0 || 3.x", "1.0.0 - 2.0.0", "^1.2.3-beta.1", "~1.2", "latest"], "pnpm": ["^1.2.3 || ~2.0"], "jsr": ["^1.2.3", "1.x"],
+             "crates": [">=1.2.0, <2", "^0.2.3", "=1.2.3-rc.1+b", "1.*"], "pypi": [">=2.28,<3", "==1.26.*", "~=1.4.2", "!=1.5; python_version>'3'", "===1.0+local"]}
+    for eco, vs in VALID.items():
+        for v in vs:
+            muts = set()
+            for i in range(len(v) + 1):
+                muts.add(v[:i])
+                for ch in ["é", "😀", " ", "-", ".", "0"]:
+                    muts.add(v[:i] + ch + v[i:])
+                    if i < len(v):
+                        muts.add(v[:i] + ch + v[i + 1:])
+                if i < len(v):
+                    muts.add(v[:i] + v[i + 1:])
+            for mu in sorted(muts):
+                mcases.append({"req": vlib.line("fz.match", eco, mu, v, v, mu), "eco": eco, "tag": None})
+                mcases.append({"req": vlib.line("fz.match", eco, v, mu, mu), "eco": eco, "tag": None})
+
     def nt_m(c, o):
         ok = o.startswith("true")
         if ok:
